@@ -153,11 +153,11 @@ type Sim struct {
 	steps   int
 	start   time.Time
 	namer   func(point string, arg any) string
-	skip    func(point string, arg any) bool  // yield points that must not park in the current state
-	onStep  func(t *Task)                     // called (scheduler goroutine) just before a task is released
-	holdFor func(point string, arg any) *Hold // a hold armed for whatever goroutine reaches point with arg (server mode: by request id)
-	onHold  func(at string)                   // a hold has begun at the yield point
-	onIdle  func() error                      // invariant hook, called after every quiescence
+	skip    func(point string, arg any) bool        // yield points that must not park in the current state
+	onStep  func(t *Task)                           // called (scheduler goroutine) just before a task is released
+	holdFor func(task, point string, arg any) *Hold // a hold armed for whatever goroutine reaches point (server mode: by request id; proxy goroutines: by task name)
+	onHold  func(at string)                         // a hold has begun at the yield point
+	onIdle  func() error                            // invariant hook, called after every quiescence
 	H       *History
 	Budget  string // non-empty when the run hit a step / virtual time budget
 	Diverge int    // replay decisions that could not be honoured
@@ -382,7 +382,7 @@ func (s *Sim) park(t *Task, point string, arg any) {
 		}
 	}
 	if t.hold == nil && s.holdFor != nil {
-		t.hold = s.holdFor(point, arg)
+		t.hold = s.holdFor(t.name, point, arg)
 	}
 	began := ""
 	if h := t.hold; h != nil && h.At == point {
